@@ -1,0 +1,172 @@
+//go:build verif
+
+package lexer
+
+// Contracts for the deductive verifier in /verif (comment-only file, build tag verif).
+// Syntax: /verif/DESIGN.md appendix A. Loop ordinals follow the order of loop headers in the function.
+
+//@ spec lexInv(l *Lexer) bool = l != nil && l.input != nil && 0 <= l.input.InputPosition && l.input.InputPosition <= l.input.Length && l.input.Length == len(l.input.RawBytes) && l.input.Length < 4294967296
+
+//@ func Lexer.readRune
+//@   requires lexInv(l)
+//@   ensures lexInv(l)
+//@   ensures old(l.input.InputPosition) < l.input.Length ==> result == l.input.RawBytes[old(l.input.InputPosition)] && l.input.InputPosition == old(l.input.InputPosition) + 1
+//@   ensures old(l.input.InputPosition) >= l.input.Length ==> result == 0 && l.input.InputPosition == old(l.input.InputPosition)
+//@   modifies l.input.InputPosition, l.input.TextPosition
+//@   safety nil
+
+//@ func runeIsDigit
+//@   ensures result <==> (48 <= r && r <= 57)
+//@   pure
+
+//@ func Lexer.byteIsWhitespace
+//@   ensures result <==> (r == 32 || r == 9 || r == 13 || r == 10 || r == 44)
+//@   pure
+
+//@ func Lexer.runeIsIdent
+//@   ensures result <==> ((97 <= r && r <= 122) || (65 <= r && r <= 90) || (48 <= r && r <= 57) || r == 45 || r == 95)
+//@   pure
+
+//@ spec tokRange(tok *token.Token, l *Lexer) bool = tok.Literal.Start <= tok.Literal.End && tok.Literal.End <= l.input.Length
+
+//@ func Lexer.readIdent
+//@   requires lexInv(l)
+//@   ensures lexInv(l) && l.input.InputPosition >= old(l.input.InputPosition)
+//@   modifies l.input.InputPosition, l.input.TextPosition
+//@   safety nil
+//@   loop 0:
+//@     invariant lexInv(l) && l.input.InputPosition >= old(l.input.InputPosition)
+//@     decreases l.input.Length - l.input.InputPosition
+
+//@ func Lexer.peekRune
+//@   requires lexInv(l)
+//@   ensures !ignoreWhitespace && l.input.InputPosition < l.input.Length ==> result == l.input.RawBytes[l.input.InputPosition]
+//@   ensures !ignoreWhitespace && l.input.InputPosition >= l.input.Length ==> result == 0
+//@   pure
+//@   safety nil
+//@   loop 0:
+//@     invariant l.input.InputPosition <= i && i <= l.input.Length
+//@     invariant !ignoreWhitespace ==> i == l.input.InputPosition
+//@     decreases l.input.Length - i
+
+//@ func Lexer.peekWhitespaceLength
+//@   requires lexInv(l)
+//@   ensures 0 <= result && l.input.InputPosition + result <= l.input.Length
+//@   pure
+//@   safety nil
+//@   loop 0:
+//@     invariant l.input.InputPosition <= i && i <= l.input.Length
+//@     invariant 0 <= amount && amount <= i - l.input.InputPosition
+//@     decreases l.input.Length - i
+
+//@ func Lexer.peekEquals
+//@   requires lexInv(l)
+//@   ensures result ==> l.input.InputPosition + len(equals) <= l.input.Length
+//@   ensures result && !ignoreWhitespace ==> (forall k in 0..len(equals) :: l.input.RawBytes[l.input.InputPosition+k] == equals[k])
+//@   pure
+//@   safety nil
+//@   loop 0:
+//@     invariant 0 <= i && i <= len(equals)
+//@     invariant !ignoreWhitespace ==> (forall k in 0..i :: l.input.RawBytes[l.input.InputPosition+k] == equals[k])
+//@     decreases len(equals) - i
+
+//@ func Lexer.swallowAmount
+//@   requires lexInv(l)
+//@   ensures lexInv(l) && l.input.InputPosition >= old(l.input.InputPosition)
+//@   ensures amount >= 0 && old(l.input.InputPosition) + amount <= l.input.Length ==> l.input.InputPosition == old(l.input.InputPosition) + amount
+//@   modifies l.input.InputPosition, l.input.TextPosition
+//@   safety nil
+//@   loop 0:
+//@     invariant lexInv(l) && 0 <= phi0 && phi0 < amount
+//@     invariant l.input.InputPosition >= old(l.input.InputPosition)
+//@     invariant old(l.input.InputPosition) + amount <= l.input.Length ==> l.input.InputPosition == old(l.input.InputPosition) + phi0
+//@     decreases amount - phi0
+
+//@ func Lexer.matchSingleRuneToken
+//@   requires lexInv(l) && tok != nil
+//@   ensures result ==> tok.Literal.End == l.input.InputPosition
+//@   ensures r == 0 ==> result && tok.Keyword == keyword.EOF
+//@   ensures !result ==> tok.Literal.Start == old(tok.Literal.Start)
+//@   ensures tok.Literal.Start == old(tok.Literal.Start)
+//@   modifies *tok
+//@   safety nil
+
+//@ func Lexer.readDotOrSpread
+//@   requires lexInv(l) && tok != nil && tok.Literal.Start <= l.input.InputPosition
+//@   ensures lexInv(l) && tokRange(tok, l) && l.input.InputPosition >= old(l.input.InputPosition)
+//@   modifies l.input.InputPosition, l.input.TextPosition, *tok
+//@   safety nil
+
+//@ func Lexer.readComment
+//@   requires lexInv(l) && tok != nil && tok.Literal.Start <= l.input.InputPosition
+//@   ensures lexInv(l) && tokRange(tok, l) && l.input.InputPosition >= old(l.input.InputPosition)
+//@   modifies l.input.InputPosition, l.input.TextPosition, *tok
+//@   safety nil
+//@   loop 0:
+//@     invariant lexInv(l) && tokRange(tok, l) && l.input.InputPosition >= old(l.input.InputPosition)
+//@     invariant tok.Literal.Start == old(tok.Literal.Start)
+//@     decreases l.input.Length - l.input.InputPosition
+
+//@ func Lexer.readDigit
+//@   requires lexInv(l) && tok != nil && tok.Literal.Start <= l.input.InputPosition
+//@   ensures lexInv(l) && tokRange(tok, l) && l.input.InputPosition >= old(l.input.InputPosition)
+//@   modifies l.input.InputPosition, l.input.TextPosition, *tok
+//@   safety nil
+//@   loop 0:
+//@     invariant lexInv(l) && l.input.InputPosition >= old(l.input.InputPosition)
+//@     decreases l.input.Length - l.input.InputPosition
+
+//@ func Lexer.readFloat
+//@   requires lexInv(l) && tok != nil && tok.Literal.Start <= l.input.InputPosition
+//@   ensures lexInv(l) && tokRange(tok, l) && l.input.InputPosition >= old(l.input.InputPosition)
+//@   modifies l.input.InputPosition, l.input.TextPosition, *tok
+//@   safety nil
+//@   loop 0:
+//@     invariant lexInv(l) && l.input.InputPosition >= old(l.input.InputPosition)
+//@     decreases l.input.Length - l.input.InputPosition
+//@   loop 1:
+//@     invariant lexInv(l) && l.input.InputPosition >= old(l.input.InputPosition)
+//@     decreases l.input.Length - l.input.InputPosition
+
+//@ func Lexer.readString
+//@   requires lexInv(l) && tok != nil
+//@   ensures lexInv(l) && tokRange(tok, l) && l.input.InputPosition >= old(l.input.InputPosition)
+//@   modifies l.input.InputPosition, l.input.TextPosition, *tok
+//@   safety nil
+
+//@ func Lexer.readSingleLineString
+//@   requires lexInv(l) && tok != nil
+//@   ensures lexInv(l) && tokRange(tok, l) && l.input.InputPosition >= old(l.input.InputPosition)
+//@   modifies l.input.InputPosition, l.input.TextPosition, *tok
+//@   safety nil
+//@   loop 0:
+//@     invariant lexInv(l) && l.input.InputPosition >= old(l.input.InputPosition)
+//@     invariant tok.Literal.Start == old(l.input.InputPosition)
+//@     decreases l.input.Length - l.input.InputPosition
+
+//@ func Lexer.readBlockString
+//@   requires lexInv(l) && tok != nil
+//@   ensures lexInv(l) && tokRange(tok, l) && l.input.InputPosition >= old(l.input.InputPosition)
+//@   modifies l.input.InputPosition, l.input.TextPosition, *tok
+//@   safety nil
+//@   loop 0:
+//@     invariant lexInv(l) && l.input.InputPosition >= old(l.input.InputPosition)
+//@     invariant tok.Literal.Start == old(l.input.InputPosition)
+//@     invariant leadingWhitespaceToken >= 0 && whitespaceCount >= 0 && quoteCount >= 0
+//@     invariant leadingWhitespaceToken + whitespaceCount + quoteCount <= l.input.InputPosition - old(l.input.InputPosition)
+//@     decreases l.input.Length - l.input.InputPosition
+
+//@ func Lexer.Read
+//@   requires lexInv(l)
+//@   ensures lexInv(l)
+//@   ensures result.Literal.Start <= result.Literal.End && result.Literal.End <= l.input.Length
+//@   ensures result.Keyword == keyword.EOF || l.input.InputPosition > old(l.input.InputPosition)
+//@   modifies l.input.InputPosition, l.input.TextPosition
+//@   safety nil
+//@   loop 0:
+//@     invariant lexInv(l) && l.input.InputPosition >= old(l.input.InputPosition)
+//@     decreases l.input.Length - l.input.InputPosition
+
+//@ func Lexer.SetInput
+//@   ensures l.input == input
+//@   modifies l.input
